@@ -171,13 +171,13 @@ func init() {
 			"a genuinely separate exporter process with a different type set serves over stdin/stdout and nothing may be imported; distinct_nontrivial = distinct (names on both sides, mode, backend pairing) transfer cells + distinct type sets hashed",
 		Required:    []string{"transfers.normal", "transfers.tampered", "transfers.truncated", "transfers.failbody", "status.404", "status.400", "status.200", "hash.processes", "hash.sets_compared", "hash.added_type_differs", "hash.variadic_groupings", "twoprocess.transfers", "entries.imported", "transfers.hostile_names"},
 		Assumptions: []string{"GobTypesHashReset is a test helper and is never called; the registered set is what a fresh process registered"},
-		Timeout:     func(string) time.Duration { return 20 * time.Minute },
+		Timeout:     func(string) time.Duration { return 45 * time.Minute },
 	})
 }
 
 func runC14(b *Batch) {
 	registerGobTypes()
-	n := b.Pick(1600, 40000) / b.NBatches
+	n := b.Pick(1600, 480000) / b.NBatches
 	for i := 0; i < n; i++ {
 		if b.Skip(i) {
 			continue
@@ -191,7 +191,7 @@ func runC14(b *Batch) {
 			c14Transfer(b, i)
 		}()
 	}
-	nh := b.Pick(96, 1600) / b.NBatches
+	nh := b.Pick(96, 4800) / b.NBatches
 	for i := 0; i < nh; i++ {
 		if b.Skip(n + i) {
 			continue
